@@ -111,7 +111,7 @@ func init() {
 					}
 				}
 			}
-			if env.Thorough() {
+			{
 				for _, a := range c08Types {
 					for _, ta := range tags {
 						for _, b := range c08Types {
